@@ -19,7 +19,30 @@ pub struct Case {
     pub limit: u32,
     /// index into the list of length classes relative to the limit
     pub len_class: u8,
+    /// element kind of the variant array probes (4, 5): index into ELEMENT_KINDS; 0 = Int32
+    #[serde(default)]
+    pub elem: u8,
 }
+
+/// (built-in type id, encoding of one element) for the element kinds of variant arrays
+const ELEMENT_KINDS: [(u8, &[u8]); 16] = [
+    (6, &[1, 0, 0, 0]),
+    (1, &[1]),
+    (2, &[0xff]),
+    (3, &[7]),
+    (4, &[1, 0]),
+    (5, &[1, 0]),
+    (7, &[1, 0, 0, 0]),
+    (8, &[1, 0, 0, 0, 0, 0, 0, 0]),
+    (9, &[1, 0, 0, 0, 0, 0, 0, 0]),
+    (10, &[0, 0, 0x80, 0x3f]),
+    (11, &[0, 0, 0, 0, 0, 0, 0xf0, 0x3f]),
+    (12, &[1, 0, 0, 0, b'a']),
+    (13, &[0, 0, 0, 0, 0, 0, 0, 0]),
+    (14, &[0; 16]),
+    (15, &[1, 0, 0, 0, 7]),
+    (19, &[0, 0, 0, 0]),
+];
 
 const LEN_CLASSES: usize = 9;
 
@@ -66,19 +89,21 @@ fn probe_bytes(c: &Case, len: i64) -> Option<(Vec<u8>, u8)> {
             (v, 0)
         }
         4 => {
-            v.push(0x86);
+            let (kind, one) = ELEMENT_KINDS[c.elem as usize % ELEMENT_KINDS.len()];
+            v.push(0x80 | kind);
             v.extend(i32le(len));
-            for i in 0..n {
-                v.extend((i as i32).to_le_bytes());
+            for _ in 0..n {
+                v.extend(one);
             }
             (v, 0xff)
         }
         5 => {
             // multi-dimension array [len, 1]
-            v.push(0xC6);
+            let (kind, one) = ELEMENT_KINDS[c.elem as usize % ELEMENT_KINDS.len()];
+            v.push(0xC0 | kind);
             v.extend(i32le(len));
-            for i in 0..n {
-                v.extend((i as i32).to_le_bytes());
+            for _ in 0..n {
+                v.extend(one);
             }
             v.extend(i32le(2));
             v.extend(i32le(len));
@@ -371,7 +396,7 @@ fn chunk_check(ctx: &Ctx, c: &ChunkCase) -> PResult {
 pub fn def() -> PropDef {
     PropDef {
         id: "C03",
-        rule: "a length probe (string, byte string, xml element, Option<Vec<i32>>, variant array, multi-dimension array, dimension list) with declared length in {limit-1, limit, limit+1, -2, -1, 0, i32::MAX, limit/2, limit+1000} placed bare / in a Variant / in DataValue(Variant) / in Variant(Variant) / as a field of a service structure / inside a request message, under a generated limit; chunks and frames with declared size around max_message_size read from a byte-counting reader; non-trivial = |length - limit| <= 1 at nesting level >= 1 (or chunk size within 1 of the limit); distinct = distinct (probe, container, limit, length)",
+        rule: "a length probe (string, byte string, xml element, Option<Vec<i32>>, variant array and multi-dimension array of each of 16 element kinds, dimension list) with declared length in {limit-1, limit, limit+1, -2, -1, 0, i32::MAX, limit/2, limit+1000} placed bare / in a Variant / in DataValue(Variant) / in Variant(Variant) / as a field of a service structure / inside a request message, under a generated limit; chunks and frames with declared size around max_message_size read from a byte-counting reader; non-trivial = |length - limit| <= 1 at nesting level >= 1 (or chunk size within 1 of the limit); distinct = distinct (probe, container, limit, length)",
         assumptions: &["only the probed limit is small; the other limits keep their defaults", "status codes are not compared (the property does not constrain them)"],
         abort_possible: false,
         parts: |tier| {
@@ -379,10 +404,10 @@ pub fn def() -> PropDef {
                 part(
                     "length_probe",
                     tier.pick(40_000, 8_000_000),
-                    (0u8..7, 0u8..6, prop_oneof![8u32..3000, 3000u32..70_000], 0u8..LEN_CLASSES as u8).prop_map(|(probe, container, limit, len_class)| {
+                    (0u8..7, 0u8..6, prop_oneof![8u32..3000, 3000u32..70_000], 0u8..LEN_CLASSES as u8, prop_oneof![1 => Just(0u8), 3 => 0u8..ELEMENT_KINDS.len() as u8]).prop_map(|(probe, container, limit, len_class, elem)| {
                         // array probes use element counts; keep them small enough to materialise
                         let limit = if probe >= 3 { 8 + limit % 2992 } else { limit };
-                        Case { probe, container, limit, len_class }
+                        Case { probe, container, limit, len_class, elem }
                     }),
                     check,
                 ),
